@@ -154,6 +154,8 @@ pub fn expected_probes(property: &str) -> Vec<&'static str> {
     match property {
         "C11" => vec![
             "probe.completed_by_non_last_fragment",
+            "probe.more_than_1024_simultaneous_streams",
+            "probe.confetti_fragments",
             "probe.completed_by_overlapping_fragment",
             "probe.duplicate_before_completion",
             "probe.partial_overlap",
